@@ -23,7 +23,7 @@ func c11NumCases(env *core.Env) int {
 	if env.Thorough() {
 		return 5000
 	}
-	return 240
+	return 1200
 }
 
 // relocate moves every file:/// document of a world under a new prefix (scheme://host/dir, no trailing slash).
